@@ -40,6 +40,15 @@ def _work(args):
         members = [{"prog": {"scan": lang.scan("all"), "comps": [], "initVars": [], "meta": []}, "cfg": dict(members[0]["cfg"])}] + members
         idents = ["early"] + idents
         texts = ["~ id: early ~ $data[*][ fail() stop() ]"] + texts
+    # a member that never reads a record: run-mode: no-run (its results are still archived, and it is valid)
+    if rng.random() < 0.3:
+        cfg = dict(members[0]["cfg"])
+        cfg.update({"noRun": True, "noMatches": False, "keepUnmatched": False})
+        idle = {"prog": {"scan": lang.scan("all"), "comps": [lang.fn("yes")], "initVars": [], "meta": []}, "cfg": cfg}
+        pos = rng.randint(0, len(members))
+        members = members[:pos] + [idle] + members[pos:]
+        idents = idents[:pos] + ["idle"] + idents[pos:]
+        texts = texts[:pos] + ["~ id: idle run-mode: no-run ~ $data[*][ yes() ]"] + texts[pos:]
     methods = list(pharness.METHODS)
     if quick:
         methods = rng.sample(methods, 3)
